@@ -196,6 +196,31 @@ def must_facts(fn, bid):
                     ok = False
             if ok:
                 out.append((cond, truth))
+    # a `switch` decides like a chain of equality tests: on the edge into `case V:` (not reached by falling through from
+    # the case before) the selector equals V; on the default / fall-out edge it differs from every case value
+    for d in dom.get(bid, ()):
+        blk = fn.blocks[d]
+        if blk.termkind != "SwitchStmt" or blk.cond is None or blk.noret:
+            continue
+        edges = switch_edges(fn, d)
+        for s, v, allv in edges:
+            if not (s == bid or s in dom.get(bid, ())) or s == d:
+                continue
+            if any(p != d and s not in dom.get(p, ()) for p in fn.blocks[s].preds):
+                continue
+            if [e for e in edges if e[0] == s] != [(s, v, allv)]:
+                continue        # several labels on one block
+            if v is not None:
+                lab = fn.node(fn.blocks[s].label)
+                eq = _switch_fact(fn, blk.cond, lab)
+                if eq is not None:
+                    out.append((eq, True))
+            else:
+                for s2, v2, _ in edges:
+                    if v2 is not None and fn.blocks[s2].label is not None:
+                        eq = _switch_fact(fn, blk.cond, fn.node(fn.blocks[s2].label))
+                        if eq is not None:
+                            out.append((eq, False))
     # `A && B` true gives A and B; `A || B` false gives !A and !B; negations are folded -- so that rules matching the
     # shape of a single test keep seeing it when a refactoring merges or splits conditions
     i = 0
@@ -216,6 +241,22 @@ def must_facts(fn, bid):
     return out
 
 
+def _switch_fact(fn, cond_id, label):
+    """the node `selector == case constant` for a case label (made once per label, outside every block)"""
+    cache = fn.__dict__.setdefault("_switch_facts", {})
+    key = (cond_id, label.id)
+    if key not in cache:
+        lhs = [c for c in label.d.get("c", []) if c is not None and c != label.d.get("sub")]
+        if not lhs:
+            cache[key] = None
+        else:
+            nid = len(fn._nodes)
+            fn._nodes.append({"i": nid, "k": "BinaryOperator", "op": "==", "c": [cond_id, lhs[0]], "t": "bool", "l": label.loc,
+                              "synthetic": True, "fact_only": True})
+            cache[key] = fn.node(nid)
+    return cache[key]
+
+
 def run_ps(fn, init_states, transfer, refine=None, **kw):
     """flow.run, path-sensitive on what folded bool helpers returned: when a virtually inlined call leaves through a `return
     true` / `return false`, the state remembers that constant for that call; a branch whose condition -- read with the remembered
@@ -228,7 +269,6 @@ def run_ps(fn, init_states, transfer, refine=None, **kw):
                 v2c[r] = n.id
     if not v2c:
         return run(fn, init_states, transfer, refine, **kw)
-
     def const_of(v):
         x = v.strip()
         hops = 0
@@ -249,31 +289,49 @@ def run_ps(fn, init_states, transfer, refine=None, **kw):
                 rm = rm | {(call, c)}
         return [(t, rm) for t in transfer(n, s)]
 
+    inits_ = None
+
     def rf(cond, truth, s2):
+        nonlocal inits_
         s, rm = s2
         if rm:
             m = dict(rm)
 
             def val(leaf):
+                nonlocal inits_
                 x = leaf
                 hops = 0
                 while x is not None and hops < 8:
                     if x.id in m:
                         return m[x.id]
+                    if x.kind == "DeclRefExpr" and x.get("local") and x.get("dk") == "Var":
+                        # a once-initialised local that holds what a folded helper returned
+                        if inits_ is None:
+                            from . import rules_atomic as _RA
+                            inits_ = (_RA.local_inits(fn), _RA)
+                        i0 = inits_[0].get(x.d["d"])
+                        if i0 is not None and not inits_[1]._reassigned(fn, x.d["d"]):
+                            return sem_eval(i0, val, m)
+                        return None
                     if x.d.get("inlined") and isinstance(x.d.get("rets"), list) and len(x.d["rets"]) == 1:
                         # a folded helper with one return: its value is that expression (`return (a() || b() || c());`)
-                        return sem_eval(fn.node(x.d["rets"][0]), val)
+                        return sem_eval(fn.node(x.d["rets"][0]), val, m)
                     if x.kind in ("ImplicitCastExpr", "ParenExpr", "ExprWithCleanups", "CXXBindTemporaryExpr") and x.children:
                         x, hops = x.children[0], hops + 1
                     else:
                         break
                 return None
             try:
-                v = sem_eval(cond, val)
+                v = sem_eval(cond, val, m)
             except Exception:
                 v = None
             if v is not None and bool(v) != bool(truth):
                 return []
+        # the decision itself is remembered: a value computed from it later (`(tag == I ? (f(), true) : false) || ...` held in a
+        # local and tested afterwards) is read consistently with the way this path went
+        cid = cond.strip().id
+        if len(rm) < 32:
+            rm = frozenset(p for p in rm if p[0] != cid) | {(cid, 1 if truth else 0)}
         res = refine(cond, truth, s) if refine is not None else [s]
         return [(t, rm) for t in res]
     ins, ex = run(fn, [(s, frozenset()) for s in init_states], tr, rf, **kw)
@@ -445,37 +503,54 @@ def fact_relation(cond, truth):
     return (a, op, b)
 
 
-def sem_eval(n, val):
+def sem_eval(n, val, memo=None):
     """Evaluate a condition under a valuation of its leaves: val(leaf node) -> int (pointers: 0 = null) or None.
-    Handles ! && || and the six comparisons; returns None when a needed leaf is unknown."""
+    Handles ! && || and the six comparisons; returns None when a needed leaf is unknown.  `memo` (node id -> value) is
+    consulted first at every node: decisions already taken on the path."""
     n = n.strip()
     k = n.kind
+    if memo is not None and n.id in memo:
+        return memo[n.id]
+
+    def _se(n_, val_):       # (the recursive calls below carry the memo along)
+        return sem_eval(n_, val_, memo)
+    if k == "BinaryOperator" and n.op == "," and len(n.children) == 2:
+        return _se(n.children[1], val)
     if k == "CXXNullPtrLiteralExpr" or n.get("nullc"):
         return 0
     c = n.cv() if k not in ("DeclRefExpr", "MemberExpr") else None
     if c is not None:
         return c
     if k == "UnaryOperator" and n.op == "!":
-        v = sem_eval(n.children[0], val)
+        v = _se(n.children[0], val)
         return None if v is None else int(not v)
     if k == "BinaryOperator":
         if n.op in ("&&", "||"):
-            a = sem_eval(n.children[0], val)
+            a = _se(n.children[0], val)
             if a is not None and ((n.op == "&&" and not a) or (n.op == "||" and a)):
                 return int(bool(a))
-            b = sem_eval(n.children[1], val)
+            b = _se(n.children[1], val)
             if b is not None and ((n.op == "&&" and not b) or (n.op == "||" and b)):
                 return int(bool(b))           # Kleene: decided by the known operand (operands are side-effect free here)
             if a is None or b is None:
                 return None
             return int(bool(a) and bool(b)) if n.op == "&&" else int(bool(a) or bool(b))
         if n.op in ("<", "<=", ">", ">=", "==", "!="):
-            a, b = sem_eval(n.children[0], val), sem_eval(n.children[1], val)
+            a, b = _se(n.children[0], val), _se(n.children[1], val)
             if a is None or b is None:
                 return None
             return int({"<": a < b, "<=": a <= b, ">": a > b, ">=": a >= b, "==": a == b, "!=": a != b}[n.op])
     if k in ("ImplicitCastExpr", "ParenExpr") and n.children:
-        return sem_eval(n.children[0], val)
+        return _se(n.children[0], val)
+    if k == "ConditionalOperator" and len(n.children) == 3:
+        c0 = _se(n.children[0], val)
+        if c0 is not None:
+            return _se(n.children[1] if c0 else n.children[2], val)
+        a, b = _se(n.children[1], val), _se(n.children[2], val)
+        return a if a is not None and a == b else None
+    if k == "DeclRefExpr" and n.get("dk") == "EnumConstant":
+        v = val(n)
+        return v if v is not None else n.cv()
     return val(n)
 
 
